@@ -138,6 +138,26 @@ class Program:
         self._rebound = out
         return out
 
+    def public_api_problems(self, expected=None):
+        """the names a user imports from the package are the verified definitions themselves: cm_colors/__init__ binds ColorPair, Color and
+        make_readable_bulk by plain `from ... import` of the modules under contract, binds each only once, and no class of the package
+        inherits from ColorPair / Color (a subclass or wrapper exported under the same name would bypass every contract)"""
+        expected = expected or {'ColorPair': ('cm_colors.core.colors', 'ColorPair'), 'Color': ('cm_colors.core.colors', 'Color'), 'make_readable_bulk': ('cm_colors.core.cm_colors', 'make_readable_bulk')}
+        out = []
+        m = self.modules.get(PKG)
+        if m is None: return ['package __init__ not found']
+        for name, (mod, sym) in expected.items():
+            ref = m.imports.get(name)
+            if ref != ('sym', mod, sym): out.append(f'{PKG}.{name} is bound to {ref}, not imported from {mod}')
+            n_bind = sum(1 for n in ast.walk(m.tree) if (isinstance(n, ast.ImportFrom) and any((a.asname or a.name) == name for a in n.names)) or (isinstance(n, (ast.FunctionDef, ast.ClassDef)) and n.name == name)
+                         or (isinstance(n, ast.Assign) and any(isinstance(t, ast.Name) and t.id == name for t in n.targets)))
+            if n_bind != 1: out.append(f'{PKG}.{name} is bound {n_bind} times in __init__')
+        for mn, mm in self.modules.items():
+            for cn, cd in mm.classes.items():
+                for b in cd.bases:
+                    if ast.unparse(b).split('.')[-1] in ('ColorPair', 'Color'): out.append(f'class {mn}:{cn} inherits from {ast.unparse(b)}')
+        return out
+
     def has_func(self, qual):
         mod, local = qual.split(':')
         return mod in self.modules and local in self.modules[mod].funcs
